@@ -445,3 +445,4 @@ package rosmar
 //@
 //@ fn DeleteBucketAt
 //@   modular
+//@   flag trusted=filesystem
